@@ -6,6 +6,7 @@ import core, worldeng as we
 #   (family, (MaxTok, MaxLen, MaxLit) quick, (..) thorough)
 # codecs for edge replay per tier, random-history families and sizes per tier
 ALLC = ['int', 'string', 'float64', 'any', 'slice']
+ALLS = ALLC + ['set']
 KEYC = ['int', 'string', 'float64', 'rune', 'any', 'ptr']
 CONF = {
     'C01': dict(
@@ -15,8 +16,8 @@ CONF = {
         rand_size=((30, 80, 10), (300, 150, 40))),      # (histories per codec, steps, maxlen)
     'C02': dict(
         mc=[('set', (3, 3, 2, 1), (5, 5, 2, 1))],
-        edge_codecs=(['int', 'slice'], ALLC),
-        rand=[('set', ALLC)],
+        edge_codecs=(['int', 'slice'], ALLS),
+        rand=[('set', ALLS)],
         rand_size=((30, 80, 12), (300, 150, 40))),
     'C03': dict(
         mc=[('catalog', (2, 3, 2, 1), (3, 4, 2, 1)), ('keysC', (2, 3, 3, 1), (3, 3, 3, 1))],
@@ -35,8 +36,8 @@ CONF = {
         rand_size=((30, 80, 8), (300, 150, 12))),
     'C15': dict(
         mc=[('algebra', (3, 4, 0, 1), (5, 6, 0, 1))],
-        edge_codecs=(['int', 'string'], ['int', 'string', 'slice', 'any']),
-        rand=[('set', ['int', 'string', 'slice', 'any'])],
+        edge_codecs=(['int', 'string', 'set'], ['int', 'string', 'slice', 'any', 'set']),      # 'set': sets of sets
+        rand=[('set', ['int', 'string', 'slice', 'any', 'set'])],
         rand_size=((20, 80, 12), (200, 150, 40))),
     'C16': dict(
         mc=[('merge', (2, 3, 0, 1), (3, 4, 0, 1)), ('catalogfn', (2, 2, 2, 1), (3, 3, 3, 1)), ('concat', (2, 2, 2, 1), (2, 3, 2, 1)),
